@@ -295,6 +295,24 @@ Section Endpoint.
   End Roundtrip.
 End Endpoint.
 
+(* the declared Content-Length is an input the answer does not depend on *)
+Theorem declared_length_irrelevant semver marshal cfg method d1 d2 size_ok decoded m :
+  handle_http semver marshal cfg method d1 size_ok decoded m =
+  handle_http semver marshal cfg method d2 size_ok decoded m.
+Proof. reflexivity. Qed.
+
+Theorem http_never_5xx semver marshal cfg m method declared size_ok decoded :
+  upload_store m ->
+  (forall r, decoded = Some r -> g_string (r_xs r) = true) ->
+  handle_http semver marshal cfg method declared size_ok decoded m =
+    expected semver marshal cfg method size_ok decoded m /\
+  fst (handle_http semver marshal cfg method declared size_ok decoded m) <> S5xx.
+Proof.
+  intros Hs Hx. unfold handle_http. split.
+  - apply (handle_expected semver marshal cfg m method size_ok decoded Hs Hx).
+  - apply (never_5xx semver marshal cfg m method size_ok decoded Hs Hx).
+Qed.
+
 (* the former deviation: a null program entry is now refused like any other
    invalid report *)
 Definition null_report : report :=
